@@ -1030,6 +1030,15 @@ class Dyn(Calls):
                           z3.And(r >= 0, r + m <= n, z3.SubString(sv, r, m) == sub, z3.Not(z3.Contains(z3.SubString(sv, r + 1, n - r - 1), sub)))))
         return VInt(r)
 
+    def m_str_partition(self, recv, args, kwargs):
+        """s.partition(sep): (head, sep, tail) split at the FIRST occurrence of sep; (s, '', '') when sep does not occur."""
+        sv, sep = recv.t, args[0].t
+        i = z3.IndexOf(sv, sep, 0)
+        found = i >= 0
+        n, m = z3.Length(sv), z3.Length(sep)
+        return VTuple([VStr(z3.If(found, z3.SubString(sv, 0, i), sv)), VStr(z3.If(found, sep, z3.StringVal(""))),
+                       VStr(z3.If(found, z3.SubString(sv, i + m, n - i - m), z3.StringVal("")))])
+
     def m_str_replace(self, recv, args, kwargs):
         """s.replace(a, b): modelled with the first-occurrence replacement; exact when a occurs at most once (obligation below)."""
         a_, b_ = args[0].t, args[1].t
